@@ -24,6 +24,7 @@ def pool_hists(seed, tier):
         hs.append([['rainbow', 'aba'], ['apply', R['W'], s, e, True]])
     hs.append([['plain', 'abc'], ['apply', R['R'], 0, 2, True], ['apply', R['B'], 1, 3, True]])
     hs.append([['plain', 'abc'], ['apply', R['R'], 0, 3, True], ['apply', R['R'], 1, 2, True]])
+    hs.append([['plain', 'ab'], ['apply', R['R'], 1, 2, True], ['apply', R['R'], 0, 2, True]])     # self-concatenation merges at the seam
     hs.append([['plain', 'ab'], ['apply', '[32;31', 0, 2, True]])
     hs.append([['plain', 'ab'], ['apply', '[xm', 0, 1, True]])
     hs.append([['rainbow', ' ab '], ['apply', R['W'], 0, 4, True]])
@@ -117,7 +118,7 @@ def menu(v, seed):
                 m.append(('unformat_matching', [pat, ['SET', [R['R']]]], {'regex': rx, 'match_case': mc_, 'count': cnt}))
     m.append(('apply_formatting_for_match', [['SET', [R['G']]], ['MATCH', 'a']], {}))
     m.append(('apply_formatting_for_match', [['SET', [R['G']]], ['MATCH', '(a)(b)?'], 1], {}))
-    for other in (['lit', 'xy'], ['S', 'q', R['R']], ['T', 'q', R['R']], ['lit', '']):
+    for other in (['lit', 'xy'], ['S', 'q', R['R']], ['T', 'q', R['R']], ['lit', ''], ['SELF']):
         m.append(('__add__', [other], {}))
         m.append(('__iadd__', [other], {}))
         m.append(('join', [['SELF'], other], {}))
@@ -182,6 +183,9 @@ def do_call(obj, name, args, kwargs, is_str, sink=None):
     return getattr(obj, name)(*a, **kwargs)
 
 
+_probed = set()
+
+
 def payload_ok(a):
     want = a.to_str()
     buf = io.StringIO()
@@ -224,6 +228,13 @@ def compare(r1, r2, what):
         e = payload_ok(r2)
         if e:
             return ('payload', '%s: %s' % (what, e))
+        from . import c09
+        ch = model.canon_hash(model.content(r2))
+        if ch not in _probed:
+            _probed.add(ch)
+            e = c09.deep_probe(model.content(r2))
+            if e:
+                return ('twin-result-inconsistent', '%s: the AnsiStr result is not a consistent value: %s' % (what, e))
         return None
     if isinstance(r2, (AnsiStr, AnsiString)):
         return ('twin-type', '%s: AnsiString gives %r but AnsiStr gives a %s' % (what, desc(r1), type(r2).__name__))
@@ -429,6 +440,7 @@ def check_path_call(h, path, name, args, kwargs):
 
 
 def replay(case):
+    _probed.clear()
     if case['kind'] == 'ctor':
         return check_ctor(case['src'], case['hist'], case['si'], 0)
     name, args, kwargs = case['call']
